@@ -24,7 +24,8 @@ from .libelefun import (
     mpf_pi, mod_pi2, mpf_cos_sin
 )
 
-from .gammazeta import mpf_gamma, mpf_rgamma, mpf_loggamma, mpc_loggamma
+from .gammazeta import (mpf_gamma, mpf_rgamma, mpf_loggamma, mpc_loggamma,
+    SMALL_FACTORIAL_CACHE_SIZE)
 
 def mpi_str(s, prec):
     sa, sb = s
@@ -285,16 +286,19 @@ def mpf_outward(f, args, prec, rounding, exact_at_integers=False):
     bound only after allowing for the error of that approximation, so the
     value is computed with 20 extra bits and moved outward by 2^10 units
     of that precision before the final rounding (as in mpi_cos_sin).
-    Zero, infinities and nan are returned as they are, and so is the value
-    of the gamma function at a small integer (exact_at_integers).
+    Zero, infinities and nan are returned as they are. At a small positive
+    integer (exact_at_integers) the gamma kernels round the exactly known
+    factorial, or its reciprocal, in the requested direction themselves.
     """
+    if exact_at_integers:
+        sign, man, exp, bc = args[0]
+        if man and not sign and exp >= 0 and exp + bc < 9 and \
+            (man << exp) < SMALL_FACTORIAL_CACHE_SIZE:
+            return f(*(args + (prec, rounding)))
     wp = prec + 20
     v = f(*(args + (wp,)))
     sign, man, exp, bc = v
     if not man:
-        return v
-    if exact_at_integers and args[0][2] >= 0 and bc <= prec:
-        # gamma, 1/gamma at a small integer: the kernel's value is exact
         return v
     if bool(sign) == (rounding == round_floor):
         p = from_man_exp((MPZ_ONE<<wp) + (MPZ_ONE<<10), -wp)
